@@ -395,7 +395,8 @@ def run(replay=None):
     bitsv = [bytes.fromhex('ffff001d'), bytes.fromhex('ffff7f20'), bytes.fromhex('cb040417'), bytes.fromhex('00000003'),
              bytes.fromhex('ff000002'), bytes.fromhex('34120001'), bytes.fromhex('ffff0021')]
     for n in range(60 if thorough else 14):
-        txs = [rng.choice(coin)[0]] + [rng.choice(plain)[0] for _ in range(rng.choice([0, 1, 3, 7]))]
+        # (a block never holds the same transaction twice: the other transactions are drawn without replacement)
+        txs = [rng.choice(coin)[0]] + [x[0] for x in rng.sample([y for y in plain if y[1][0] != 'coinbase'], rng.choice([0, 1, 3, 7]))]
         h = {'version': le(rng.choice([1, 2, 0x20000000, 0x3fffe000]), 4), 'prev': bytes(rng.randrange(256) for _ in range(32)),
              'merkle': bytes(rng.randrange(256) for _ in range(32)), 'time': le(rng.randrange(2 ** 32), 4),
              'bits': bitsv[n % len(bitsv)], 'nonce': le(rng.randrange(2 ** 32), 4)}
@@ -462,6 +463,8 @@ def run(replay=None):
         n = len(txs)
         tser2 = common.tlc_eval('TxFormatEval', [{'k': 'ser', 'tx': jtx(t)} for t in txs], timeout=3000)
         idx = {ref.sha256d(bytes(x['stripped']))[::-1].hex(): i + 1 for i, x in enumerate(tser2)}
+        if len(idx) != n:
+            raise common.MachineryError('block reader section: the generated block holds the same transaction twice')
         seqs = [q for L in (1, 2, 3, 4) for q in itertools.product(range(len(calls_alphabet)), repeat=L)]
         if not thorough:
             seqs = [q for q in seqs if len(q) <= 3] + rng.sample([q for q in seqs if len(q) == 4], 150)
